@@ -288,7 +288,8 @@ theorem C20_switch_when_valid_deferred (a : Agent) (now : Nat) (l : Cand) (src :
     · exact congrArg (fun x => x.2.1) hnv
 
 /-- DEFERRED PATH, completion.  When the pair's own check later succeeds — an authenticated success response from
-the pair's remote whose transaction is pending, unexpired and symmetric — on a pair carrying a deferred valued
+the pair's remote whose transaction is pending, unexpired and symmetric (`hnet`, `hdest`, `hsrc`: the request went
+over this network type, to the response's source, FROM the local address the response arrived on) — on a pair carrying a deferred valued
 nomination `v`: the pair becomes THE selected pair iff no greater value has been accepted since
 (`lastNomination = some last` with `last ≤ v`, i.e. still `some v` by `C20_lastNomination_max`); otherwise (a
 greater value accepted meanwhile, or the selector re-installed) the selection does not move.  Priorities and the
@@ -297,13 +298,14 @@ theorem C20_switch_when_valid_completes (a : Agent) (now : Nat) (l : Cand) (src 
     (hm : m.method = 1) (hc : m.cls = 2) (hk : m.key = some a.remotePwd) (hr : a.findRemote l.net src = some r)
     (hctl : a.controlling = false) {a' : Agent} {pd : Pending} {p : Pair} {v : Nat}
     (htp : a.takePending now m.tid = (a', some pd)) (hnet : pd.net = l.net) (hdest : pd.dest = src)
+    (hsrc : pd.src = l.addr)
     (hfp : a.findPair l r = some p) (hnos : p.nomOnSuccess = true) (hdn : p.deferredNom = some v) :
     (a.handleInbound now l src m).1.selected =
       match a.lastNomination with
       | some last => if v < last then a.selected else some p.id
       | none => a.selected := by
   rw [handleInbound_success a now l src m r hm hc hk hr]
-  exact handleSuccess_deferred a now m l r src hctl htp hnet hdest hfp hnos hdn
+  exact handleSuccess_deferred a now m l r src hctl htp hnet hdest hsrc hfp hnos hdn
 
 /-! ## Smaller or equal values never change the selection -/
 
@@ -367,10 +369,11 @@ theorem C20_smaller_never_changes_deferred (a : Agent) (now : Nat) (l : Cand) (s
     (hm : m.method = 1) (hc : m.cls = 2) (hk : m.key = some a.remotePwd) (hr : a.findRemote l.net src = some r)
     (hctl : a.controlling = false) {a' : Agent} {pd : Pending} {p : Pair} {v : Nat}
     (htp : a.takePending now m.tid = (a', some pd)) (hnet : pd.net = l.net) (hdest : pd.dest = src)
+    (hsrc : pd.src = l.addr)
     (hfp : a.findPair l r = some p) (hnos : p.nomOnSuccess = true) (hdn : p.deferredNom = some v)
     (hsmaller : ∀ last, a.lastNomination = some last → v < last) :
     (a.handleInbound now l src m).1.selected = a.selected := by
-  rw [C20_switch_when_valid_completes a now l src m r hm hc hk hr hctl htp hnet hdest hfp hnos hdn]
+  rw [C20_switch_when_valid_completes a now l src m r hm hc hk hr hctl htp hnet hdest hsrc hfp hnos hdn]
   cases hl : a.lastNomination with
   | none => rfl
   | some last => simp [hsmaller last hl]
@@ -502,7 +505,7 @@ example :
 def completesHyps (a : Agent) (now : Nat) (l : Cand) (src : Nat) (m : Msg) : Option (Nat × Option Nat) :=
   match a.findRemote l.net src, (a.takePending now m.tid).2 with
   | some r, some pd =>
-    if m.method == 1 && m.cls == 2 && m.key == some a.remotePwd && !a.controlling && pd.net == l.net && pd.dest == src then
+    if m.method == 1 && m.cls == 2 && m.key == some a.remotePwd && !a.controlling && pd.net == l.net && pd.dest == src && pd.src == l.addr then
       (a.findPair l r).bind fun p => if p.nomOnSuccess then some (p.id, p.deferredNom) else none
     else none
   | _, _ => none
